@@ -122,7 +122,7 @@ def _build(case, tu, geom_of):
             else:
                 pt = [data.PredictedTag(tag=tags[k], score=q / 4) for k, q in enumerate(p["sc"]) if q > 0 and k < len(tags)]
             ses.append(data.SoundEventPrediction(
-                uuid=_uid(5, cid, i), score=0.5, tags=pt,
+                uuid=_uid(5, cid, i), score=p.get("conf", 2) / 4, tags=pt,
                 sound_event=data.SoundEvent(uuid=_uid(6, cid, i), recording=_REC, geometry=g)))
         preds[cid] = data.ClipPrediction(uuid=_uid(7, cid), clip=pclip, sound_events=ses)
         geoms[cid] = (pg, ag)
@@ -201,7 +201,7 @@ def random_cases(rng, tier):
         for cid in range(2, rng.randint(2, 4) + 1):
             clips.append({"id": cid, "cv": rng.randrange(4),
                           "anns": [{"g": gk(), "cls": rng.choice([0, 9] + list(range(1, v + 1)))} for _ in range(rng.randint(0, 4))],
-                          "preds": [{"g": gk(), "sc": scores()} for _ in range(rng.randint(0, 4))]})
+                          "preds": [{"g": gk(), "sc": scores(), "conf": rng.randint(1, 4)} for _ in range(rng.randint(0, 4))]})
         ids = [c["id"] for c in clips]
         po = [1] + [i for i in ids[1:] if rng.random() < 0.8]
         ao = [1] + [i for i in ids[1:] if rng.random() < 0.8]
